@@ -6,7 +6,7 @@
 //
 // Symbol maps: abstract id i <-> concrete id through the id table named by the case (idTables below;
 // table "base" is base+i with base from VERIF_IDBASE; a concrete id outside the table reads back as -1);
-// mark m <-> ChangesetID markBase+m; versions and visible flags are themselves; option settings are
+// mark m <-> ChangesetID markBase+m; timestamp ts <-> Timestamp (0 = zero time, n = timeBase + n minutes); versions and visible flags are themselves; option settings are
 // rendered one to one into annotate.Option values.
 package main
 
@@ -29,6 +29,7 @@ type El struct {
 	V   int   `json:"v"`
 	Vis bool  `json:"vis"`
 	M   int64 `json:"m"`
+	Ts  int64 `json:"ts"` // abstract timestamp: 0 = zero time.Time, n > 0 = timeBase + n minutes
 }
 
 type Cells struct {
@@ -71,6 +72,7 @@ type OutEl struct {
 	V   int    `json:"v"`
 	Vis bool   `json:"vis"`
 	M   int64  `json:"m"`
+	Ts  int64  `json:"ts"`
 }
 
 type Act struct {
@@ -145,6 +147,27 @@ func (m idmap) aid(c int64) int64 {
 	return -1
 }
 
+// abstract timestamp <-> time.Time
+var timeBase = time.Date(2012, 9, 12, 6, 0, 0, 0, time.UTC)
+
+func ctime(a int64) time.Time {
+	if a == 0 {
+		return time.Time{}
+	}
+	return timeBase.Add(time.Duration(a) * time.Minute)
+}
+
+func atime(t time.Time) int64 {
+	if t.IsZero() {
+		return 0
+	}
+	d := t.Sub(timeBase)
+	if a := int64(d / time.Minute); a >= 1 && a <= 100000 && d%time.Minute == 0 {
+		return a
+	}
+	return -1
+}
+
 func amark(c osm.ChangesetID) int64 {
 	if a := int64(c) - markBase; a >= 1 && a <= 100000 {
 		return a
@@ -213,13 +236,13 @@ func renderOSM(m idmap, c Cells, nile bool) *osm.OSM {
 	}
 	o := &osm.OSM{}
 	for _, e := range c.Node {
-		o.Nodes = append(o.Nodes, &osm.Node{ID: osm.NodeID(m.cid(e.ID)), Version: e.V, Visible: e.Vis, ChangesetID: osm.ChangesetID(markBase + e.M)})
+		o.Nodes = append(o.Nodes, &osm.Node{ID: osm.NodeID(m.cid(e.ID)), Version: e.V, Visible: e.Vis, ChangesetID: osm.ChangesetID(markBase + e.M), Timestamp: ctime(e.Ts)})
 	}
 	for _, e := range c.Way {
-		o.Ways = append(o.Ways, &osm.Way{ID: osm.WayID(m.cid(e.ID)), Version: e.V, Visible: e.Vis, ChangesetID: osm.ChangesetID(markBase + e.M)})
+		o.Ways = append(o.Ways, &osm.Way{ID: osm.WayID(m.cid(e.ID)), Version: e.V, Visible: e.Vis, ChangesetID: osm.ChangesetID(markBase + e.M), Timestamp: ctime(e.Ts)})
 	}
 	for _, e := range c.Relation {
-		o.Relations = append(o.Relations, &osm.Relation{ID: osm.RelationID(m.cid(e.ID)), Version: e.V, Visible: e.Vis, ChangesetID: osm.ChangesetID(markBase + e.M)})
+		o.Relations = append(o.Relations, &osm.Relation{ID: osm.RelationID(m.cid(e.ID)), Version: e.V, Visible: e.Vis, ChangesetID: osm.ChangesetID(markBase + e.M), Timestamp: ctime(e.Ts)})
 	}
 	return o
 }
@@ -242,7 +265,7 @@ func renderDS(m idmap, hs []Hist) osm.HistoryDatasourcer {
 			}
 			l := osm.Nodes{}
 			for _, e := range h.Vs {
-				l = append(l, &osm.Node{ID: id, Version: e.V, Visible: e.Vis, ChangesetID: osm.ChangesetID(markBase + e.M)})
+				l = append(l, &osm.Node{ID: id, Version: e.V, Visible: e.Vis, ChangesetID: osm.ChangesetID(markBase + e.M), Timestamp: ctime(e.Ts)})
 			}
 			ds.Nodes[id] = l
 		case "way":
@@ -258,7 +281,7 @@ func renderDS(m idmap, hs []Hist) osm.HistoryDatasourcer {
 			}
 			l := osm.Ways{}
 			for _, e := range h.Vs {
-				l = append(l, &osm.Way{ID: id, Version: e.V, Visible: e.Vis, ChangesetID: osm.ChangesetID(markBase + e.M)})
+				l = append(l, &osm.Way{ID: id, Version: e.V, Visible: e.Vis, ChangesetID: osm.ChangesetID(markBase + e.M), Timestamp: ctime(e.Ts)})
 			}
 			ds.Ways[id] = l
 		case "relation":
@@ -274,7 +297,7 @@ func renderDS(m idmap, hs []Hist) osm.HistoryDatasourcer {
 			}
 			l := osm.Relations{}
 			for _, e := range h.Vs {
-				l = append(l, &osm.Relation{ID: id, Version: e.V, Visible: e.Vis, ChangesetID: osm.ChangesetID(markBase + e.M)})
+				l = append(l, &osm.Relation{ID: id, Version: e.V, Visible: e.Vis, ChangesetID: osm.ChangesetID(markBase + e.M), Timestamp: ctime(e.Ts)})
 			}
 			ds.Relations[id] = l
 		default:
@@ -294,13 +317,13 @@ func recordOSM(m idmap, o *osm.OSM) []OutEl {
 		return out
 	}
 	for _, n := range o.Nodes {
-		out = append(out, OutEl{"node", m.aid(int64(n.ID)), n.Version, n.Visible, amark(n.ChangesetID)})
+		out = append(out, OutEl{"node", m.aid(int64(n.ID)), n.Version, n.Visible, amark(n.ChangesetID), atime(n.Timestamp)})
 	}
 	for _, w := range o.Ways {
-		out = append(out, OutEl{"way", m.aid(int64(w.ID)), w.Version, w.Visible, amark(w.ChangesetID)})
+		out = append(out, OutEl{"way", m.aid(int64(w.ID)), w.Version, w.Visible, amark(w.ChangesetID), atime(w.Timestamp)})
 	}
 	for _, r := range o.Relations {
-		out = append(out, OutEl{"relation", m.aid(int64(r.ID)), r.Version, r.Visible, amark(r.ChangesetID)})
+		out = append(out, OutEl{"relation", m.aid(int64(r.ID)), r.Version, r.Visible, amark(r.ChangesetID), atime(r.Timestamp)})
 	}
 	return out
 }
